@@ -1,9 +1,9 @@
 SPECIFICATION GSpec
 CONSTANTS
-  Nodes = {"A", "B"}
-  Order <- OrderAB
-  ModsOf <- ModsAB
-  Params = {"value", "sp"}
+  Nodes = {"A"}
+  Order <- OrderA
+  ModsOf <- ModsA
+  Params = {"value", "mode"}
   Values = {1, 2}
   UpErrs = {"hw"}
   Conns = {"c1", "c2"}
@@ -13,7 +13,7 @@ CONSTANTS
   WaitSteps = {2, 12}
   ReadErrChoice = {TRUE, FALSE}
   GiveUpErrChoice = {TRUE, FALSE}
-  Depth = 3
+  Depth = 5
   Thin = 1
 CONSTRAINT Bound
 ACTION_CONSTRAINT EmitStep
